@@ -60,8 +60,36 @@ def run_gen():
     ok, out = build_gen()
     if not ok:
         return False, "translator build failed:\n" + out
-    rc, out = sh([BUILD + "/gen", "-repo", REPO, "-out", COQ + "/gen", "-dict", BUILD + "/dict.txt", "-dump", BUILD + "/tables.txt"], timeout=300)
+    st = BUILD + "/gen_status.json"
+    if os.path.exists(st):
+        os.remove(st)
+    rc, out = sh([BUILD + "/gen", "-repo", REPO, "-out", COQ + "/gen", "-dict", BUILD + "/dict.txt", "-dump", BUILD + "/tables.txt", "-status", st], timeout=300)
     return rc == 0, out
+
+
+# which properties rest on which generated item (an item the translator cannot produce leaves
+# the previous file in place: only the properties that rest on it are affected)
+GEN_ITEM_SERVES = {
+    "effects": {"C05"},
+    "dispatch": {"C01", "C03", "C06", "C08", "C09", "C10", "C12", "C14", "C16", "C18", "C20"},
+    "dump": {"C20", "C04"},
+    "dict": set(),
+}
+
+
+def gen_failure_affects(pid):
+    """After a failed run_gen: does the failure concern property pid?  (Unknown items, or no status
+    file: every property.)"""
+    try:
+        failed = json.load(open(BUILD + "/gen_status.json")).get("failed", {})
+    except Exception:
+        return True
+    if not failed:
+        return True
+    for item in failed:
+        if item not in GEN_ITEM_SERVES or pid in GEN_ITEM_SERVES[item]:
+            return True
+    return False
 
 
 def coq_files():
